@@ -384,6 +384,10 @@ func formatInto(sb *strings.Builder, format string, args []string) (int, error) 
 						farg = int(n)
 					} else {
 						farg = uint(n)
+						// The sign flags only apply to signed conversions.
+						if len(fmts) > 1 && (fmts[1] == '+' || fmts[1] == ' ') {
+							fmts = slices.Delete(fmts, 1, 2)
+						}
 					}
 					if c == 'i' || c == 'u' {
 						c = 'd'
